@@ -357,8 +357,6 @@ def configs(thorough, seed):
             for axes in axes_all:
                 axes = tuple(axes) + ('n',) * (3 - dim)
                 for nl in (1.0, 2.0):
-                    if nl == 2.0 and L == 1.25:
-                        continue     # layer wider than the box
                     for k in range(1, kmax + 1):
                         combos = list(itertools.combinations(range(len(lat)),
                                                              k))
